@@ -181,6 +181,11 @@ def drive(n, edges, flags, targets, probs=None, seeds=None):
     par, chl = rel_maps(n, edges)
     src_release = [FUTURE if (not par[v] and targets[v] == "V") else 0 for v in range(n)]
     g, tasks = mk_graph(n, edges, flags, probs, src_release)
+    # ONE Workload object lives through the whole history (as in a simulation): completions are notified through it and
+    # the via-workload queries below use the same object, so anything a Workload remembers between calls is in play
+    # (seed C18-4: a stale "finished graphs" set)
+    wl = Workload.from_task_graphs({g.name: g})
+    g._verif_workload = wl
     clock = 0
     ctime = {}
     deferred = []
@@ -230,7 +235,7 @@ def drive(n, edges, flags, targets, probs=None, seeds=None):
         if seeds is not None and v in seeds:
             random.seed(seeds[v])
         try:
-            g.notify_task_completion(t, T(clock))
+            wl.notify_task_completion(t, T(clock))
         except (ValueError, RuntimeError):
             return None
     now = clock
@@ -618,7 +623,7 @@ def eval_state(case, stats=None):
         target = g
         fname = "TaskGraph.get_schedulable_tasks"
         if case.get("via_workload"):
-            target = Workload.from_task_graphs({"G": g})
+            target = getattr(g, "_verif_workload", None) or Workload.from_task_graphs({"G": g})
             fname = "Workload.get_schedulable_tasks"
         offers = {}
         for q in queries:
